@@ -51,8 +51,9 @@ TRUSTED = [
 ]
 ASSUMPTIONS = [
     "handle-free workflows: 3-6 tasks of one int argument; a body is built from the argument, constants, lazy `+`, calls of tasks with a "
-    "larger index and cond(c, a, b); no task function returns two equal non-literal sub-expressions (the scheduler evaluates those once, "
-    "`_pending_expr`; such workflows are discarded); no failing task (which jobs got recorded before a failure stops the execution is "
+    "larger index and cond(c, a, b); a third of the workflows use one call expression eagerly and again inside lazily evaluated sites "
+    "(cond branches) under the same parent job - the scheduler evaluates equal expressions of one parent once (`_pending_expr`), the "
+    "model mirrors that with the memo of `evalM` (the theorems about `Ev` speak of workflows without such duplicates); no failing task (which jobs got recorded before a failure stops the execution is "
     "timing dependent by design); tasks carry limits over resources r0, r1, g",
     "handle workflows: main() creates handles and passes them to sibling jobs use(h, b) / use(step(h, a), b) whose other argument is "
     "a constant or slow(b); handle sources: one shared handle, a handle per lane, an explicit fork h.fork('k')",
@@ -81,7 +82,8 @@ LEVEL_TEXT = ("Proved in Lean, for every total order on call hashes: hash_call_n
               "of the code as found.")
 LEVEL_NOTE = ("partial: the step from 'any completion order / limit configuration' to 'the children of each job are listed in some order' is "
               "the tie's (observed on enumerated and sampled schedules), not a theorem about the event loop; executions with failing jobs "
-              "are out of scope (abort point is timing dependent by design); catch/seq/map and containers are not in the modelled fragment; "
+              "are out of scope (abort point is timing dependent by design); workflows that use one expression twice under a parent are "
+              "covered by the tie only (model function `evalM` = the depth-first run with the `_pending_expr` memo), not by the `Ev` theorems; catch/seq/map and containers are not in the modelled fragment; "
               "handle workflows are the flat sibling patterns of the generator.")
 TECHNIQUE = "Lean 4 proof on call-hash pre-images + controlled-schedule differential runs of the real scheduler"
 
@@ -142,6 +144,26 @@ def gen_tm(rng, i, n, depth):
     return ("add", gen_tm(rng, i, n, depth - 1), gen_tm(rng, i, n, depth - 1))
 
 
+def gen_shared_body(rng, i, n):
+    """a body in which ONE call expression `e` is used eagerly and again inside a lazily evaluated site (a cond branch, or a
+    cond condition reached after another cond) under the same parent job: the scheduler must evaluate it once whatever finishes
+    first (`_pending_expr`)"""
+    callees = list(range(i + 1, n))
+    e = ("call", rng.choice(callees), rng.choice([("arg",), ("add", ("arg",), ("lit", 1)), ("lit", 2)]))
+    c = ("call", rng.choice(callees), rng.choice([("arg",), ("lit", 1), ("add", ("arg",), ("lit", 3))]))
+    if c == e:
+        c = ("call", c[1], ("add", c[2], ("lit", 5)))
+    other = gen_tm(rng, i, n, 1)
+    k = rng.random()
+    if k < 0.4:
+        return ("add", e, ("cond", c, e, other))                    # e = work(1); [e, cond(is_ready(), e, 0)]
+    if k < 0.6:
+        return ("add", ("cond", c, e, other), e)
+    if k < 0.8:
+        return ("add", ("add", e, ("lit", 1)), ("cond", c, ("add", e, ("lit", 1)), e))     # a shared lazy `+` as well
+    return ("add", e, ("cond", c, ("cond", e, e, other), ("add", e, other)))
+
+
 class Flow:
     """handle-free workflow: bodies[i] = Tm of task t<i>, limits[i] = None | list | dict"""
 
@@ -170,7 +192,7 @@ def tup(x):
     return tuple(tup(y) for y in x) if isinstance(x, list) else x
 
 
-def gen_flow(rng, serial=False):
+def gen_flow(rng, serial=False, shared=False):
     n = rng.choice([3, 4, 4, 5, 6])
     bodies = [None] * n
 
@@ -181,6 +203,10 @@ def gen_flow(rng, serial=False):
             bodies[i] = gen_tm(rng, i, n, rng.choice([1, 2, 2, 3]))
             if i > 0 or ncalls(bodies[i]) >= 2:          # the root job has at least two children
                 break
+    if shared:
+        for i in range(n - 1):
+            if i == 0 or rng.random() < 0.3:
+                bodies[i] = gen_shared_body(rng, i, n)
     limits = []
     for i in range(n):
         r = rng.random()
@@ -431,20 +457,17 @@ def explore(ctx, env, label, kind, spec_json, expr_fn, task_ids, handle_ids, mod
         ctx.count("schedules_enumerated_exhaustively", exhausted)
     # model
     replies = ctx.model("C07", [q for _, q in pending])
-    discarded = False
     for (rec, q), rep in zip(pending, replies):
         dup, mval, mrows = model_rows(rep)
         rec["model_value"], rec["model_rows"], rec["dup"] = mval, mrows, dup
-        discarded = discarded or dup
-    if discarded:
-        ctx.count("discarded", "duplicate-subexpression")
-        return []
+    if any(r["dup"] for r in runs):
+        ctx.count("workflows_with_a_shared_expression_under_one_parent", 1)
     base = runs[0]
     for rec in runs:
         case = dict(label=label, kind=kind, spec=spec_json, limits=rec["limits"], schedule=rec["schedule"])
         ctx.case(key=None if rec["njobs"] <= 1 else (label, rec["limits"], tuple(rec["schedule"])),
                  sample=dict(label=label, limits=rec["limits"], schedule=rec["schedule"][:12], value=rec["value"], nrows=len(rec["rows"])),
-                 kind=kind, limits=rec["limits"], jobs=min(rec["njobs"], 12))
+                 kind=kind, limits=rec["limits"], jobs=min(rec["njobs"], 12), shared_expression=rec["dup"])
         if rec["status"] != "ok":
             ctx.violation("C07-execution-did-not-finish", "the workflow did not return a value under this schedule: " + rec["value"],
                           case=case, expected="a value", actual=rec["value"], kind="schedule")
@@ -665,6 +688,10 @@ def corpus_flows():
         # twins across parents: CSE / collapse, both parents list the same child hash
         "twins": Flow([("add", C(1, A), C(2, A)), C(3, ("add", A, L(1))), C(3, ("add", A, L(1))), ("add", A, L(5))],
                       [None, ["g"], ["g"], ["g"]], 2),
+        # one expression used eagerly and again in a cond branch: one job whichever of t1(1) / t2(1) finishes first
+        "shared-in-cond-branch": Flow([("add", C(1, A), ("cond", C(2, A), C(1, A), L(0))), ("add", A, L(10)), A], [None, None, None], 1),
+        "shared-lazy-add": Flow([("add", ("add", C(1, A), L(1)), ("cond", C(2, A), ("add", C(1, A), L(1)), C(1, A))), ("add", A, L(10)), A],
+                                [None, ["r0"], ["r0"]], 1),
         "deep": Flow([C(1, C(2, C(3, A))), ("add", A, C(2, A)), ("cond", A, C(3, A), L(4)), ("add", A, L(1))],
                      [["g"], ["g"], ["g"], ["g"]], 1),
     }
@@ -707,7 +734,7 @@ def run(ctx):
         while ctx.elapsed() < budget and k < ctx.n(400, 4000):
             r = rng.random()
             if r < 0.68:
-                check_flow(ctx, env, gen_flow(rng, serial=rng.random() < 0.3), "flow%d" % k, thorough)
+                check_flow(ctx, env, gen_flow(rng, serial=rng.random() < 0.3, shared=rng.random() < 0.35), "flow%d" % k, thorough)
             elif r < 0.88:
                 check_hflow(ctx, env, gen_hflow(rng), "hflow%d" % k, thorough, recount)
             else:
